@@ -555,7 +555,10 @@ type c15Spec struct {
 
 type c15Harness struct{}
 
-var c15Kinds = []string{"trunc", "trunc", "byte", "byte", "u32max", "u32max", "u32zero", "u16max", "dup", "drop", "ins", "type", "magic", "lenfield", "lenfield", "resumeinfo", "resumeinfo"}
+var c15Kinds = []string{"trunc", "trunc", "byte", "byte", "u32max", "u32max", "u32zero", "u16max", "dup", "drop", "ins", "type", "magic", "lenfield", "lenfield", "resumeinfo", "resumeinfo", "frame", "frame", "frame"}
+
+// c15Begins: the FileBegin records of the recorded run (context for the "frame" mutations).
+var c15Begins []wBegin
 
 func (c15Harness) Gen(r *verifsim.SplitMix, tier string, idx int) any {
 	b := txSpec{Prop: "C15", Seed: r.Next(), ContentSeed: r.Next()}
@@ -574,11 +577,22 @@ func (c15Harness) Gen(r *verifsim.SplitMix, tier string, idx int) any {
 		if r.Chance(1, 3) {
 			n = (9 + r.Intn(12)) * 64 // enough chunks for multi-byte bitmaps
 			b.Chunk = 64
+		} else if r.Chance(1, 5) {
+			n = 0 // an empty file: no frame may ever name it
 		}
 		b.Files = append(b.Files, txFile{P: fmt.Sprintf("f%d.bin", i), N: n})
 	}
 	b.Strat = verifsim.Strategy{Kind: []string{"rand", "fifo", "weighted"}[r.Intn(3)], Seed: r.Next(), MaxW: 6}
 	sp := c15Spec{Base: b, Target: []string{"recv", "recv", "send"}[r.Intn(3)], CloseConn: r.Chance(1, 2), LingerMs: []int{0, 500, 3000}[r.Intn(3)]}
+	if idx%397 == 3 {
+		// dedicated scenario for the listed finding (peer-chosen chunk size allocated up
+		// front): a one-chunk file whose FileBegin announces a chunk size near 4 GiB
+		sp.Base.Chunk, sp.Base.Streams = 64, 1
+		sp.Base.Files = []txFile{{P: "f0.bin", N: 64}}
+		sp.Target = "recv"
+		sp.Muts = []c15Mut{{Stream: 0, Kind: "lenfield", Pos: 0, Val: 12}}
+		return sp
+	}
 	nm := 1
 	if r.Chance(1, 4) {
 		nm = 2
@@ -588,7 +602,11 @@ func (c15Harness) Gen(r *verifsim.SplitMix, tier string, idx int) any {
 		if r.Chance(1, 3) {
 			pos = r.Intn(60) // early bytes: headers and announcements
 		}
-		sp.Muts = append(sp.Muts, c15Mut{Stream: r.Intn(3), Kind: c15Kinds[r.Intn(len(c15Kinds))], Pos: pos, Val: r.Intn(1 << 16)})
+		mu := c15Mut{Stream: r.Intn(3), Kind: c15Kinds[r.Intn(len(c15Kinds))], Pos: pos, Val: r.Intn(1 << 16)}
+		if mu.Kind == "frame" {
+			mu.Stream = 1 // the first data stream
+		}
+		sp.Muts = append(sp.Muts, mu)
 	}
 	return sp
 }
@@ -780,6 +798,82 @@ func applyMut(b []byte, m c15Mut, isControl, withHeader bool, r *verifsim.SplitM
 			}
 		}
 		return out, ""
+	case "frame":
+		// well-formed chunk frames (valid checksum) that do not fit the announced file
+		if isControl || len(c15Begins) == 0 {
+			return out, ""
+		}
+		mk := func(key uint64, idx uint32, payload []byte) []byte {
+			f := make([]byte, dataChunkHeaderLen+len(payload))
+			binary.BigEndian.PutUint64(f[0:8], key)
+			binary.BigEndian.PutUint32(f[8:12], idx)
+			binary.BigEndian.PutUint32(f[12:16], uint32(len(payload)))
+			binary.BigEndian.PutUint32(f[16:20], crc32.Checksum(payload, crc32cTable))
+			copy(f[dataChunkHeaderLen:], payload)
+			return f
+		}
+		junk := func(n int) []byte {
+			j := make([]byte, n)
+			for i := range j {
+				j[i] = byte(r.Next())
+			}
+			return j
+		}
+		switch m.Val % 5 {
+		case 0: // data for a file announced with size 0
+			for _, b0 := range c15Begins {
+				if b0.FileSize == 0 {
+					idx := uint32([]int{0, 3}[m.Val/5%2])
+					return append(mk(b0.StreamID, idx, junk(1)), out...), "frame:data-for-empty-file"
+				}
+			}
+		case 1, 2, 3, 4:
+			// walk the frames of this stream; replace one payload by a longer / shorter one
+			type fr struct{ off, n int; key uint64; idx uint32 }
+			var frames []fr
+			for off := 0; off+dataChunkHeaderLen <= len(b); {
+				n := int(binary.BigEndian.Uint32(b[off+12 : off+16]))
+				if off+dataChunkHeaderLen+n > len(b) {
+					break
+				}
+				frames = append(frames, fr{off, n, binary.BigEndian.Uint64(b[off : off+8]), binary.BigEndian.Uint32(b[off+8 : off+12])})
+				off += dataChunkHeaderLen + n
+			}
+			if len(frames) == 0 {
+				return out, ""
+			}
+			f := frames[m.Pos%len(frames)]
+			var cs uint32
+			for _, b0 := range c15Begins {
+				if b0.StreamID == f.key {
+					cs = b0.ChunkSize
+				}
+			}
+			if cs == 0 {
+				return out, ""
+			}
+			var repl []byte
+			kind := ""
+			switch {
+			case m.Val%5 == 1 && uint32(f.n) < cs: // the (short) last chunk sent at full chunk size: writes past the end of the file
+				repl, kind = mk(f.key, f.idx, append(append([]byte(nil), b[f.off+dataChunkHeaderLen:f.off+dataChunkHeaderLen+f.n]...), junk(int(cs)-f.n)...)), "frame:overlong-last-chunk"
+			case m.Val%5 == 2 && f.n > 1: // a chunk shorter than its place in the file
+				repl, kind = mk(f.key, f.idx, b[f.off+dataChunkHeaderLen:f.off+dataChunkHeaderLen+f.n/2]), "frame:short-chunk"
+			case m.Val%5 == 4 && len(frames) > 1: // the same chunk twice in a row (an honest sender repeats a chunk only after a failed resume verification)
+				one := b[f.off : f.off+dataChunkHeaderLen+f.n]
+				repl, kind = append(append([]byte(nil), one...), one...), "frame:duplicate"
+			case m.Val%5 == 3: // same bytes, an index beyond the file
+				repl, kind = mk(f.key, f.idx+1000, b[f.off+dataChunkHeaderLen:f.off+dataChunkHeaderLen+f.n]), "frame:index-beyond-file"
+			}
+			if kind == "" {
+				return out, ""
+			}
+			res := append([]byte(nil), b[:f.off]...)
+			res = append(res, repl...)
+			res = append(res, b[f.off+dataChunkHeaderLen+f.n:]...)
+			return res, kind
+		}
+		return out, ""
 	case "lenfield":
 		// absurd values in the length-bearing fields of the first records / frames
 		if isControl && withHeader && len(out) >= 8 && m.Val%3 != 0 {
@@ -863,6 +957,7 @@ func (c15Harness) Run(spec any) (res verifsim.RunResult) {
 		streams = append(streams, ws.buf)
 	}
 	mr := verifsim.NewSplitMix(sp.Base.Seed ^ 0xC15)
+	c15Begins = rec.sw.begins
 	var applied []string
 	for _, m := range sp.Muts {
 		i := m.Stream % len(streams)
@@ -925,7 +1020,13 @@ func (c15Harness) Run(spec any) (res verifsim.RunResult) {
 	}
 	limit := uint64(64*sr.bytesIn) + 48<<20
 	if sr.allocDelta > limit {
-		v("memory-out-of-proportion", sp.Target+":"+allocSig(sr.allocDelta), fmt.Sprintf("%s allocated %d bytes while %d bytes were received (mutations %v)", sp.Target, sr.allocDelta, sr.bytesIn, applied))
+		cause := strings.Join(applied, "+")
+		for _, a := range applied {
+			if a == "lenfield:chunksize" {
+				cause = "chunk-size-from-FileBegin"
+			}
+		}
+		v("memory-out-of-proportion", sp.Target+":"+cause+":"+allocSig(sr.allocDelta), fmt.Sprintf("%s allocated %d bytes while %d bytes were received (mutations %v)", sp.Target, sr.allocDelta, sr.bytesIn, applied))
 	}
 	onlyData := true
 	for _, m := range sp.Muts {
@@ -937,7 +1038,7 @@ func (c15Harness) Run(spec any) (res verifsim.RunResult) {
 		want := expectedDigest("", sp.Base.ContentSeed, sp.Base.Files, sp.Base.Dirs)
 		got, _ := digestTree(out, out)
 		if d := diffDigests(want, got); d != "" {
-			v("success-with-wrong-tree", treeDiffSig(want, got), fmt.Sprintf("receiver accepted mutated input (%v) and reported success with a different tree: %s", applied, d))
+			v("success-with-wrong-tree", strings.Join(applied, "+")+":"+treeDiffSig(want, got), fmt.Sprintf("receiver accepted mutated input (%v) and reported success with a different tree: %s", applied, d))
 		}
 	}
 	return
